@@ -41,7 +41,8 @@ CONTRACTS = {
         # the error exit is taken exactly when the pointer is not the most recently acquired slot
         'error_only_if': 'not (same_obj(old(geom[0]), old(scn.geoms)) and off(old(geom[0])) == old(scn.ngeom)) or old(geom[0]) == NULL',
     },
-    'mju_n2f': {'assumed': True, 'requires': {'n': 'n >= 0'}, 'assigns': ['res[*]'], 'ensures': {}},       # numeric conversion (values not modelled: opaque floats)
+    'mju_n2f': {'assumed': True, 'requires': {'n': 'n >= 0'}, 'assigns': ['res[*]'],      # mjtNum -> float copy; the rounding to float is not modelled (opaque values pass through casts)
+                'ensures': {'copied': 'forall(lambda j: implies(0 <= j and j < n, res[j] == vec[j]))'}},
 }
 
 # mjv_initGeom on its real body: which fields it writes (frame) and the integer fields it sets; used by acquireGeom / addGeom* through the
@@ -49,12 +50,17 @@ CONTRACTS = {
 WRITTEN = ['type', 'size[*]', 'pos[*]', 'mat[*]', 'rgba[*]', 'dataid', 'matid', 'texid', 'texuniform', 'texrepeat[*]', 'texcoord', 'emission', 'specular', 'shininess',
            'reflectance', 'label[*]', 'modelrbound']
 INIT_GEOM = {
-    'params': {'geom': {'n': 1}, 'size': {'n': 3, 'null': True}, 'pos': {'n': 3, 'null': True}, 'mat': {'n': 9, 'null': True}, 'rgba': {'n': 4, 'null': True}},
+    'params': {'geom': {'n': 1}, 'size': {'n': 3, 'nullable': True}, 'pos': {'n': 3, 'nullable': True}, 'mat': {'n': 9, 'nullable': True}, 'rgba': {'n': 4, 'nullable': True}},
     'requires': {},
     'assigns': ['geom.' + w for w in WRITTEN],
     'ensures': {
         'type_is_the_argument': 'geom.type == type',
         'integer_defaults': 'geom.dataid == -1 and geom.matid == -1 and geom.texid == -1 and geom.texuniform == 0 and geom.texcoord == 0',
+        'size_follows_the_geom_type': 'implies(size != NULL, (geom.size[0] == size[0] and geom.size[1] == size[0] and geom.size[2] == size[0]) if type == mjGEOM_SPHERE else '
+                                      '((geom.size[0] == size[0] and geom.size[1] == size[0] and geom.size[2] == size[1]) if (type == mjGEOM_CAPSULE or type == mjGEOM_CYLINDER) else '
+                                      '(geom.size[0] == size[0] and geom.size[1] == size[1] and geom.size[2] == size[2])))',
+        'pose_is_the_given_pose': 'implies(pos != NULL, geom.pos[0] == pos[0] and geom.pos[1] == pos[1] and geom.pos[2] == pos[2]) and '
+                                  'implies(mat != NULL, And(*[geom.mat[j] == mat[j] for j in (0, 1, 2, 3, 4, 5, 6, 7, 8)]))',
         'identifying_fields_untouched': 'geom.objid == old(geom.objid) and geom.objtype == old(geom.objtype) and geom.category == old(geom.category) and geom.segid == old(geom.segid)',
     },
     'no_error': True,
